@@ -84,24 +84,136 @@ def outcome_key(job, res):
     return hash(json.dumps(k)) & 0xFFFFFFFF
 
 
+def _done(ep):
+    return (len(ep["obs"]) - 1) if ep["driver"] == "step" else ep.get("runs", 0)
+
+
 def judge_lifecycle(job, res):
-    """C05: calls return, no exception, episodes isolated (ref equality covers seq 0 / time 0 / no stale message)."""
+    """C05: calls return, no exception out of a call or a task, episodes isolated (seq 0 / time 0 / no stale message)."""
     v = lifecycle_violations(job, res)
-    if res["finished"] and job.get("clock", "SIM") == "SIM":
-        v += ref_violations(job, res)
     if res["finished"]:
         v += isolation_violations(job, res)
     return dict(violations=v, outcome=outcome_key(job, res))
 
 
+def judge_once(job, res):
+    """C06 (threaded half): the step function ran exactly once per recorded tick, zero times for overridden/skipped ones."""
+    v = once_violations(job, res) if res["finished"] else []
+    return dict(violations=v, outcome=outcome_key(job, res) if res["finished"] else "UNFINISHED")
+
+
+def judge_c03(job, res):
+    from vf.o1 import c03_violations
+
+    v = []
+    if res["finished"]:
+        for ep in res["episodes"]:
+            if "record" in ep:
+                v += c03_violations(job["spec"], ep["record"], exact=job.get("clock", "SIM") == "SIM", sup_done=_done(ep))
+    return dict(violations=v, outcome=outcome_key(job, res) if res["finished"] else "UNFINISHED")
+
+
+def judge_c04(job, res):
+    """C04: the start-time law evaluated on the recorded values, with the scripted delays as the sampled delays."""
+    from vf.o1 import c04_script_violations, c04_violations
+
+    v = []
+    if res["finished"]:
+        for ep in res["episodes"]:
+            if "record" not in ep:
+                continue
+            v += c04_violations(job["spec"], ep["record"])
+            v += c04_script_violations(job["spec"], ep["record"])
+    return dict(violations=v, outcome=outcome_key(job, res) if res["finished"] else "UNFINISHED")
+
+
+def observables(job, res):
+    """What C02 compares between executions: per episode the record and the supervisor's observations."""
+    return [dict(record=ep.get("record"), obs=ep["obs"], done=_done(ep), overridden=ep["overridden"], driver=ep["driver"]) for ep in res["episodes"]]
+
+
+def _cmp_prefix(spec, A, B, max_err=6):
+    """records A, B (episode observables) must agree on the common prefix of what they recorded."""
+    v = []
+    sup = spec["supervisor"]
+
+    def err(sig, *d):
+        if len(v) < max_err:
+            v.append((sig, d))
+
+    ra, rb = A["record"], B["record"]
+    if ra is None or rb is None:
+        return v
+    same_payload = sorted(A["overridden"]) == sorted(B["overridden"])
+    for n in ra:
+        sa, sb = ra[n]["steps"], rb[n]["steps"]
+        K = min(len(sa["seq"]), len(sb["seq"]))
+        for f in ("seq", "ts_start", "ts_end", "delay", "ts_scheduled", "ts_max"):
+            if sa[f][:K] != sb[f][:K]:
+                k = next(i for i in range(K) if sa[f][i] != sb[f][i])
+                err("steps." + f, n, k, sa[f][k], sb[f][k])
+        Kp = K if n != sup else min(K, min(A["done"], B["done"]) + 1)
+        if same_payload:
+            for f in ("rng", "state_h", "out_h"):
+                if f in sa and f in sb:
+                    L = min(Kp, len(sa[f]), len(sb[f]))
+                    if n == sup and f == "out_h":
+                        L = min(L, A["done"], B["done"])
+                    if sa[f][:L] != sb[f][:L]:
+                        k = next(i for i in range(L) if sa[f][i] != sb[f][i])
+                        err("steps." + f, n, k, sa[f][k], sb[f][k])
+            if "inputs" in sa and "inputs" in sb:
+                for o in sa["inputs"]:
+                    for f in ("seq", "ts_sent", "ts_recv", "data_h"):
+                        xa = [[(-1 if (f == "seq" and x < 0) else x) for x in row] for row in sa["inputs"][o][f][:Kp]]
+                        xb = [[(-1 if (f == "seq" and x < 0) else x) for x in row] for row in sb["inputs"][o][f][:Kp]]
+                        if xa != xb:
+                            k = next(i for i in range(Kp) if xa[i] != xb[i])
+                            err("window." + f, n, o, k, xa[k], xb[k])
+        for o in ra[n]["inputs"]:
+            ma, mb = ra[n]["inputs"][o], rb[n]["inputs"][o]
+            ta = [(a, b, c, d) for a, b, c, d in zip(ma["seq_out"], ma["seq_in"], ma["ts_sent"], ma["ts_recv"]) if b < K]
+            tb = [(a, b, c, d) for a, b, c, d in zip(mb["seq_out"], mb["seq_in"], mb["ts_sent"], mb["ts_recv"]) if b < K]
+            if ta != tb:
+                err("messages", n, o, ta[:10], tb[:10])
+    if A["driver"] == "step" and B["driver"] == "step" and same_payload:
+        L = min(len(A["obs"]), len(B["obs"]))
+        for k in range(L):
+            oa, ob = A["obs"][k], B["obs"][k]
+            for o in oa["inputs"]:
+                oa["inputs"][o]["seq"] = [(-1 if x < 0 else x) for x in oa["inputs"][o]["seq"]]
+                ob["inputs"][o]["seq"] = [(-1 if x < 0 else x) for x in ob["inputs"][o]["seq"]]
+            if oa != ob:
+                err("supervisor-observation", k, {f: (oa[f], ob[f]) for f in oa if oa[f] != ob[f]})
+                break
+    return v
+
+
+def judge_c02(job, res):
+    """C02: differential - this execution agrees with the baseline execution of the same graph and initial state
+    (other policy / schedule / real-time factor / driver) on the common prefix of what both recorded."""
+    v = []
+    if res["finished"]:
+        base = job.get("baseline")
+        mine = observables(job, res)
+        if base is not None:
+            for A, B in zip(mine, base):
+                for sig, det in _cmp_prefix(job["spec"], A, B):
+                    v.append(("differs-from-baseline:" + sig, det))
+    return dict(violations=v, outcome=outcome_key(job, res) if res["finished"] else "UNFINISHED")
+
+
 def judge_all(job, res):
-    """C02/C03/C06 on one execution: lifecycle + reference equality + exactly once."""
+    """everything at once (used by exploratory runs, not by a registered check)"""
     v = lifecycle_violations(job, res)
     if res["finished"]:
         if job.get("clock", "SIM") == "SIM":
             v += ref_violations(job, res)
         v += once_violations(job, res)
         v += isolation_violations(job, res)
+        v += judge_c03(job, res)["violations"]
+        if job.get("clock", "SIM") == "SIM":
+            v += judge_c04(job, res)["violations"]
     return dict(violations=v, outcome=outcome_key(job, res))
 
 
